@@ -278,4 +278,37 @@ theorem farField_eq_detector (hr : 0 < nr) (hc : 0 < nc) (ws : List (Img ℝ)) (
       exact (rsum_modeIntensity hr hc (hws v hv)).1
     exact sumModes_fftshift2 _ hm _ hz
 
+/-- one probe mode through the whole real-space part of the pipeline: placement + multislice -/
+theorem mode_exit (hr : 0 < nr) (hc : 0 < nc) (windows kernels : List (Img ℝ)) (hw : ∀ w ∈ windows, Rect nr nc w)
+    (hk : ∀ K ∈ kernels, Rect nr nc K) {psi : Img ℝ} (hpsi : Rect nr nc psi) (fr fc : ℝ) :
+    Spec.exitWave windows kernels (Spec.translate psi fr fc)
+        = fftshift2 (overlapProjection1 (windows.map ifftshift2) (kernels.map ifftshift2)
+            (fourierShift (ifftshift2 psi) fr fc)).2
+      ∧ Rect nr nc (overlapProjection1 (windows.map ifftshift2) (kernels.map ifftshift2)
+            (fourierShift (ifftshift2 psi) fr fc)).2 := by
+  obtain ⟨h1, h2⟩ := translate_eq_fourierShift hr hc hpsi fr fc
+  have := exitWave_eq_overlap hr hc windows kernels _ hw hk (rect_fftshift2 h2)
+  rw [ifftshift2_fftshift2 h2] at this
+  rw [h1]
+  exact this
+
+/-- the detector output is rectangular (at least one mode) -/
+theorem rect_detector (hr : 0 < nr) (hc : 0 < nc) (ws : List (Img ℝ)) (hws : ∀ w ∈ ws, Rect nr nc w) (hne : ws ≠ []) :
+    Rect nr nc (detector ws) := by
+  unfold detector intensitiesCorner
+  apply rect_fftshift2
+  cases ws with
+  | nil => exact absurd rfl hne
+  | cons w rest =>
+    have hw := hws w List.mem_cons_self
+    have hz : Rect nr nc (zerosLike ((w :: rest).headD []) : RImg ℝ) := by
+      simp only [List.headD_cons]
+      obtain ⟨g, rfl⟩ := hw.cx_build
+      rw [zerosLike_build]; exact rect_build _ _ _
+    have hm : ∀ x ∈ (w :: rest).map modeIntensity, Rect nr nc x := by
+      intro x hx
+      obtain ⟨v, hv, rfl⟩ := List.mem_map.1 hx
+      exact (rsum_modeIntensity hr hc (hws v hv)).1
+    exact (sumModes_rsum _ hm _ hz).1
+
 end QuantemModel.Forward
